@@ -40,6 +40,22 @@ Definition checked_funcname (f_replace_all : bytes -> bytes -> bytes -> bytes) (
   else Some (name).
 Definition translated_checked_funcname := true.
 
+(* .SetLevelOutputWidth  (returns levelOutputWidth) *)
+Definition set_level_output_width (g_levelOutputWidth : Z) (width : Z) : Z :=
+  if ((0 <=? width) && (width <=? 5))
+  then let g_levelOutputWidth := width in
+  g_levelOutputWidth
+  else g_levelOutputWidth.
+Definition translated_set_level_output_width := true.
+
+(* .SetMessageMinimalWidth  (returns minimalMessageWidth) *)
+Definition set_message_minimal_width (g_minimalMessageWidth : Z) (w : Z) : Z :=
+  if (16 <=? w)
+  then let g_minimalMessageWidth := w in
+  g_minimalMessageWidth
+  else g_minimalMessageWidth.
+Definition translated_set_message_minimal_width := true.
+
 (* Entry.printImpl  (the statements after the blank-line rule; returns (deliveries, context); None = panic) *)
    (* argument not kept by the model (declared): pc.kvps *)
 Definition print_impl {R E D : Type} (f_begin f_timestamp f_name f_severity f_msg f_first f_pc f_rest : pcs R -> pcs R) (f_attrs : pcs R -> E * pcs R) (f_errdump : pcs R -> E -> pcs R) (f_end : pcs R -> bool -> pcs R) (f_bytes : pcs R -> bytes) (d_printout : Z -> bytes -> D) (m_mLevelColors : list (Z * list Z)) (g_flags : Z) (pc : pcs R) (tr_ : list D) : option (list D * pcs R) :=
